@@ -49,13 +49,17 @@ META = {
     "design_ref": "DESIGN.md §8 (Dnssec: key-set state machine)",
 }
 
-API_QUICK = ["MC_KeySet_kk", "MC_KeySet_zz", "MC_KeySet_cc", "MC_KeySet_set"]
-API_THOROUGH = ["MC_KeySet_kkz_thorough", "MC_KeySet_kzz_thorough", "MC_KeySet_kzc_thorough",
-                "MC_KeySet_kz9_thorough", "MC_KeySet_set_thorough"]
-ENV_QUICK = ["MC_KeySetEnv_kkz", "MC_KeySetEnv_kzz", "MC_KeySetEnv_cc", "MC_KeySetEnv_kzc",
-             "MC_KeySetEnv_imported"]
-ENV_THOROUGH = ["MC_KeySetEnv_kkzz_thorough", "MC_KeySetEnv_kzcc_thorough",
+# quick: each conflict class on two keys of its role + all six roll types
+# against each other (no-op rolls on one KSK + one ZSK)
+API_QUICK = ["MC_KeySet_conflicts", "MC_KeySet_kk", "MC_KeySet_zz", "MC_KeySet_cc"]
+API_THOROUGH = ["MC_KeySet_kk_thorough", "MC_KeySet_zz_thorough", "MC_KeySet_cc_thorough",
+                "MC_KeySet_kkz_thorough", "MC_KeySet_kzz_thorough", "MC_KeySet_kzc_thorough",
+                "MC_KeySet_kz9_thorough", "MC_KeySet_set", "MC_KeySet_set_thorough"]
+ENV_QUICK = ["MC_KeySetEnv_kkz", "MC_KeySetEnv_kzz", "MC_KeySetEnv_cc", "MC_KeySetEnv_kzc"]
+ENV_THOROUGH = ["MC_KeySetEnv_imported", "MC_KeySetEnv_kkzz_thorough", "MC_KeySetEnv_kzcc_thorough",
                 "MC_KeySetEnv_ttl2_thorough", "MC_KeySetEnv_kzcs_thorough"]
+LIVE_QUICK = ["MC_KeySetEnv_live"]
+LIVE_THOROUGH = ["MC_KeySetEnv_live2"]
 # the specification with a deviation switched on violates the named property
 DEV_DEMOS = [
     ("MC_KeySet", "MC_KeySet_dev", "NoPanic"),
@@ -67,7 +71,19 @@ DEV_DEMOS = [
     ("MC_KeySetEnv", "MC_KeySetEnv_unsigned", "Validatable"),
 ]
 GEN_QUICK = ["Gen_KeySet_kk", "Gen_KeySet_zz", "Gen_KeySet_cc", "Gen_KeySet_set"]
-GEN_THOROUGH = ["Gen_KeySet_kzc_thorough"]
+GEN_THOROUGH = ["Gen_KeySet_zz_thorough", "Gen_KeySet_cc_thorough", "Gen_KeySet_kzc_thorough"]
+
+
+def _tlc(ctx, module, cfg, **kw):
+    """ctx.tlc, retried single-threaded when TLC's evaluator trips over its
+    own (not thread-safe) record normalisation."""
+    res = ctx.tlc(module, cfg, **kw)
+    if not res.ok and kw.get("expect_violation") is None and res.violated is None \
+            and "TLC threw an unexpected exception" in open(res.log).read():
+        kw["workers"] = 1
+        kw["label"] = (kw.get("label") or cfg) + "-retry"
+        res = ctx.tlc(module, cfg, **kw)
+    return res
 
 
 def _cover(res):
@@ -91,17 +107,29 @@ def run(ctx):
     thorough = ctx.tier == "thorough"
     ctx.build("replay_keyset", "record_keyset")
 
+    # developer aid for mutation trials: only the code-dependent stages; such
+    # a run never yields a "held" verdict
+    binding_only = bool(os.environ.get("VERIF_X01_BINDING_ONLY"))
+    if not binding_only:
+        _model_checking(ctx, thorough)
+    _binding(ctx, thorough)
+    if binding_only and not ctx.violations:
+        raise vlib.ToolError("binding-only run (VERIF_X01_BINDING_ONLY): no violation, no verdict")
+
+
+def _model_checking(ctx, thorough):
     # 1. the state machine itself: ordered / refused / exclusive (X01.2, X01.3)
     cov = set()
     for cfg in API_QUICK + (API_THOROUGH if thorough else []):
-        mc = ctx.tlc("MC_KeySet", cfg, workers=8, coverage=False, label=cfg)
+        mc = _tlc(ctx, "MC_KeySet", cfg, workers=8, coverage=False, label=cfg)
         ctx.require_ok(mc, cfg)
         cov |= _cover(mc)
     need = {(s, rt, "ok") for s in STEPS for rt in ROLLS}
     need |= {("add", "", "ok"), ("delete_key", "", "ok"), ("delete_key", "", "KeyNotOld"),
              ("add", "", "DuplicateKeyTag"), ("tick", "", "ok")}
-    need |= {("set_" + n, "", "ok") for n in ("present", "signer", "at_parent", "stale", "decoupled",
-                                               "visible", "ds_visible", "rrsig_visible")}
+    if thorough:
+        need |= {("set_" + n, "", "ok") for n in ("present", "signer", "at_parent", "stale", "decoupled",
+                                                   "visible", "ds_visible", "rrsig_visible")}
     for e in ("WrongKeyState", "NoSuitableKeyPresent", "AlgorithmSetsMismatch",
               "WrongStateForRollOperation", "ConflictingRollInProgress"):
         if not any(c[0] == "start_roll" and c[2] == e for c in cov):
@@ -117,7 +145,7 @@ def run(ctx):
     # 2. honest operator + resolver caches: validatable, in sync, completion (X01.1, X01.4)
     ecov = set()
     for cfg in ENV_QUICK + (ENV_THOROUGH if thorough else []):
-        mc = ctx.tlc("MC_KeySetEnv", cfg, workers=8, coverage=False, label=cfg)
+        mc = _tlc(ctx, "MC_KeySetEnv", cfg, workers=8, coverage=False, label=cfg)
         ctx.require_ok(mc, cfg)
         ecov |= _cover(mc)
     emiss = sorted({(s, rt, "ok") for s in STEPS for rt in ROLLS} - ecov)
@@ -125,8 +153,8 @@ def run(ctx):
         raise vlib.ToolError("vacuity (operator model): never taken: %s" % emiss[:8])
     if not any(c[2] == "Wait" for c in ecov):
         raise vlib.ToolError("vacuity (operator model): cache_expired never had to wait")
-    for cfg in ["MC_KeySetEnv_live", "MC_KeySetEnv_live2"]:
-        lv = ctx.tlc("MC_KeySetEnv", cfg, workers=8, coverage=False, label=cfg)
+    for cfg in LIVE_QUICK + (LIVE_THOROUGH if thorough else []):
+        lv = _tlc(ctx, "MC_KeySetEnv", cfg, workers=8, coverage=False, label=cfg)
         ctx.require_ok(lv, cfg)
     ctx.exhaustive_flags.append(True)
     # the deviations of the code, on the model: which property each one breaks
@@ -138,12 +166,16 @@ def run(ctx):
         if not dv.ok:
             raise vlib.ToolError("%s: expected %s to be violated (got %s)" % (cfg, inv, dv.violated))
 
+
+
+def _binding(ctx, thorough):
     # 3. S->I: every explored transition injected into a real KeySet
     devs = ",".join(sorted(ctx.open_devs))
     first = True
     for cfg in GEN_QUICK + (GEN_THOROUGH if thorough else []):
         cases = os.path.join(ctx.work, cfg + ".ndjson")
-        gen = ctx.tlc("MC_KeySet", cfg, workers=1, coverage=False, label=cfg, cases_to=cases, count=False)
+        gen = ctx.tlc("MC_KeySet", cfg, workers=1, coverage=False, label=cfg, cases_to=cases, count=False,
+                      env=_dev_env(ctx))
         ctx.require_ok(gen, cfg)
         if gen.ncases < 10000:
             raise vlib.ToolError("%s produced too few cases (%d)" % (cfg, gen.ncases))
@@ -180,7 +212,8 @@ def run(ctx):
     # simulated long behaviours over 12 keys / all calls, followed on one API-only object
     cases = os.path.join(ctx.work, "sim.ndjson")
     sim = ctx.tlc("MC_KeySet", "Gen_KeySet_sim", workers=1, coverage=False, label="gen-sim",
-                  simulate=(1500 if thorough else 150), depth=200, cases_to=cases, count=False)
+                  simulate=(1500 if thorough else 150), depth=200, cases_to=cases, count=False,
+                  env=_dev_env(ctx))
     ctx.require_ok(sim, "Gen_KeySet_sim")
     stats = os.path.join(ctx.work, "sim-stats.json")
     ctx.replay_cases("replay_keyset", cases, args=["--stats", stats], label="gen-sim")
